@@ -71,6 +71,13 @@ Definition helper_model (c : list tclass * list nat * list (str * value) * cfgda
                 out.append(dict(classes=[up, down], vals={'x': 1}, real=[1], by_class=by_class, drop_mock=False, single=single))
                 out.append(dict(classes=[up, down, deep], vals={'x': 1, 'y': 3}, real=[2], by_class=by_class, drop_mock=False,
                                 single=single))
+        # an optional input (with a default) of one tested class, listed before a tested class whose required input is
+        # neither tested nor mocked: the missing input is reported at construction, in both orders
+        upm = dict(K(0, 'Upstream'), name='upstream')
+        oc = dict(K(1, 'Opt', param_inputs=[dict(ref={'name': 'ghost'}, default=[7])]), name='opt')
+        nd = dict(K(2, 'Needs', meta_inputs=[{'cls': 0}]), name='needs')
+        for real in ([1, 2], [2, 1]):
+            out.append(dict(classes=[upm, oc, nd], vals={}, real=real, by_class=False, drop_mock=True, single=False))
         # a parameter read from another config key than its name, while a different task's parameter bears that name
         pa = dict(K(0, 'Alpha', params=[P('x')]), name='alpha')
         pb = dict(K(1, 'Beta', params=[P('x', cfg='beta_x', default=[5])], meta_inputs=[{'cls': 0}]), name='beta')
@@ -202,6 +209,16 @@ Definition helper_model (c : list tclass * list nat * list (str * value) * cfgda
             d = '/'.join(f.split('/')[:-1]).replace('/', ':')
             if d in mock_names:
                 return f'a mocked task was persisted: {f}'
+        if case['drop_mock'] and not obs.get('real_error'):
+            # a required input (declared by class) of a tested task that is neither tested nor mocked must be reported when
+            # the helper is constructed
+            mock_ids = [c['id'] for c in case['classes'] if c['id'] not in case['real'] and not c.get('abstract')]
+            if mock_ids:
+                dropped = mock_ids[0]
+                needed = any(r.get('cls') == dropped for c in case['classes'] if c['id'] in case['real'] for r in c['meta_inputs'])
+                if needed and 'error' not in obs:
+                    return (f'the input {pl.slug_of(next(c for c in case["classes"] if c["id"] == dropped))} of a tested task is '
+                            f'neither tested nor mocked, yet the helper was constructed (values: {str(obs.get("values"))[:200]})')
         if obs.get('real_error') or 'values' not in obs or case['drop_mock']:
             return None
         asked = sorted(pl.slug_of(c) for c in case['classes'] if c['id'] in case['real'])
@@ -264,9 +281,92 @@ Definition helper_model (c : list tclass * list nat * list (str * value) * cfgda
         return d
 
 
+IDENTITY_SRC = '''
+from taskchain import Task, Parameter
+from taskchain.parameter import ParameterObject
+
+class Marker(ParameterObject):
+    def repr(self):
+        return 'Marker()'
+
+DEFAULT_MODE = Marker()
+
+class Audit(ParameterObject):
+    def __init__(self):
+        self.seen = []
+    def repr(self):
+        return 'Audit()'
+    def note(self, what):
+        self.seen.append(what)
+
+class Pick(Task):
+    class Meta:
+        parameters = [Parameter('mode'), Parameter('audit'), Parameter('items')]
+    def run(self, mode, audit, items) -> dict:
+        audit.note('ran')
+        items.append('touched by run')
+        return {'branch': 'default' if mode is DEFAULT_MODE else 'other', 'n': len(items)}
+'''
+
+
+class ParameterIdentity(Suite):
+    """parameter values handed over as live objects - a module-level sentinel compared with `is`, a recording object the
+    caller looks at afterwards, a list the task appends to: the helper gives the task the objects it was given, as the
+    real chain built from the same values does (same value, and the caller's objects have seen the run).
+    Runtime check only."""
+    name = 'parameter_identity'
+    model = ''
+
+    def gen(self, rng, tier):
+        return [dict(helper=h, with_dir=w) for h in ('create_test_task', 'TestChain') for w in (False, True)]
+
+    def run_impl(self, case):
+        import sys, types
+        from taskchain import Config
+        from taskchain.utils.testing import TestChain, create_test_task
+        tmp = tempfile.mkdtemp(prefix='tcverif-ident-')
+        name = 'tcv_identity'
+        m = types.ModuleType(name)
+        sys.modules[name] = m
+        try:
+            exec(compile(IDENTITY_SRC, name, 'exec'), m.__dict__)
+            m.Pick.__module__ = name
+            out = {}
+            audit, items = m.Audit(), []
+            cfg = Config(Path(tmp) / 'real', name='real', data={'tasks': [m.Pick], 'mode': m.DEFAULT_MODE, 'audit': audit, 'items': items})
+            out['real'] = dict(value=cfg.chain()['pick'].value, seen=list(audit.seen), items=list(items))
+            audit, items = m.Audit(), []
+            params = {'mode': m.DEFAULT_MODE, 'audit': audit, 'items': items}
+            kw = {'base_dir': Path(tmp) / 'helper'} if case['with_dir'] else {}
+            if case['helper'] == 'create_test_task':
+                t = create_test_task(m.Pick, parameters=params, **kw)
+            else:
+                t = TestChain([m.Pick], parameters=params, **kw)['pick']
+            out['helper'] = dict(value=t.value, seen=list(audit.seen), items=list(items))
+            return out
+        finally:
+            sys.modules.pop(name, None)
+            shutil.rmtree(tmp, ignore_errors=True)
+
+    def oracle(self, case, obs):
+        if 'unexpected_exception' in obs:
+            return f'unexpected exception {obs["unexpected_exception"]}: {obs["text"]}'
+        import json
+        if json.dumps(obs['real'], sort_keys=True) != json.dumps(obs['helper'], sort_keys=True):
+            return (f'{case}: with the same parameter objects the real chain gives {obs["real"]}, the helper {obs["helper"]} '
+                    f'(value of the task, what the caller\'s recording object has seen, the caller\'s list afterwards)')
+        return None
+
+    def nontrivial(self, case, obs):
+        return True
+
+    def key(self, case):
+        return repr(case)
+
+
 class C19(Prop):
     pid = 'C19'
-    suites = [Helpers()]
+    suites = [Helpers(), ParameterIdentity()]
     assumptions = ['a fresh base_dir per helper (the helpers persist under the config name `test`)']
 
 
